@@ -33,6 +33,9 @@ func TestMain(m *testing.M) { evid.Main(m, "C09") }
 type TypeSpec struct {
 	Kinds []string `json:"kinds"` // bool int32 int64 float64 string bytes ints strs map sub psub
 	Fresh bool     `json:"fresh"` // materialised with a process-unique nonce
+	// BigNums: explicit protobuf tags with field numbers 500, 1000, 1500, ... (the proto struct decoder keeps
+	// numbers up to 1023 in an index and larger ones in a separate table)
+	BigNums bool `json:"big_nums,omitempty"`
 }
 
 type Step struct {
@@ -94,6 +97,20 @@ func materialise(ts TypeSpec, n int64) reflect.Type {
 	fs := make([]reflect.StructField, len(ts.Kinds))
 	for i, k := range ts.Kinds {
 		tag := fmt.Sprintf(`thrift:"%d" json:"f%d,omitempty"`, i+1, i+1)
+		if ts.BigNums {
+			wire, rep := "bytes", "opt"
+			switch k {
+			case "bool", "int32", "int64":
+				wire = "varint"
+			case "float64":
+				wire = "fixed64"
+			case "ints":
+				wire, rep = "varint", "rep"
+			case "strs", "map", "set", "iset":
+				rep = "rep"
+			}
+			tag += fmt.Sprintf(` protobuf:"%s,%d,%s,name=f%d"`, wire, (i+1)*500, rep, i+1)
+		}
 		if i == 0 {
 			tag += fmt.Sprintf(` v:"%d"`, n)
 		}
@@ -428,7 +445,7 @@ func genCase(rt *rapid.T) Case {
 	nt := rapid.IntRange(2, 8).Draw(rt, "ntypes")
 	for i := 0; i < nt; i++ {
 		nf := rapid.IntRange(1, 8).Draw(rt, "nf")
-		ts := TypeSpec{Fresh: rapid.IntRange(0, 3).Draw(rt, "fresh") > 0}
+		ts := TypeSpec{Fresh: rapid.IntRange(0, 3).Draw(rt, "fresh") > 0, BigNums: rapid.IntRange(0, 2).Draw(rt, "bignums") == 0}
 		for j := 0; j < nf; j++ {
 			ts.Kinds = append(ts.Kinds, rapid.SampledFrom(kinds).Draw(rt, "kind"))
 		}
